@@ -173,6 +173,9 @@ struct Cfg {
     /// the transport accepts only the first three bytes of the first frame after Login Success (a Keep
     /// Alive when routing is slow) and then blocks until t = 20 s, i.e. until after discovery has answered
     ka_stall: bool,
+    /// the frame after the first Keep Alive (the timeout Disconnect of a silent client) is accepted 3 bytes and
+    /// blocked until 34 s, i.e. until after discovery (33 s) has answered
+    dc_stall: bool,
     /// the client does not wait for the server: every packet of the history goes out in the same burst as
     /// the one before it (only an Encryption Response has to wait for the request it answers: it needs the key and the token)
     burst: bool,
@@ -276,6 +279,10 @@ fn build(hist: &[Kind], cfg: &Cfg) -> Case {
         // clientbound frames of a completed login: [cookie request,] encryption request, login success, then this one
         let frame = 2 + usize::from(cfg.secret);
         case.transport.writes.push(WriteDev { frame, prog: vec![WStep::Accept(3), WStep::Until(20_000)] });
+    }
+    if cfg.dc_stall {
+        let frame = 3 + usize::from(cfg.secret);
+        case.transport.writes.push(WriteDev { frame, prog: vec![WStep::Accept(3), WStep::Until(34_000)] });
     }
     case.script = hist
         .iter()
@@ -438,24 +445,24 @@ pub fn run_with(cli: Cli, extra: &dyn Fn(&Report)) -> ! {
     for secret in [false, true] {
         for status in ["minimal", "none", "full"] {
             for disc_ms in if thorough { vec![0u64, 17_000] } else { vec![0u64] } {
-                cfgs.push(Cfg { secret, status, disc_ms, one_byte: false, ka_stall: false, burst: false });
+                cfgs.push(Cfg { secret, status, disc_ms, one_byte: false, ka_stall: false, burst: false, dc_stall: false });
             }
         }
     }
     // routing that completes 1-4 s before a keep-alive tick (whatever follows the Transfer would show)
-    cfgs.push(Cfg { secret: true, status: "minimal", disc_ms: 12_000, one_byte: false, ka_stall: false, burst: false });
-    cfgs.push(Cfg { secret: false, status: "minimal", disc_ms: 15_000, one_byte: false, ka_stall: false, burst: false });
+    cfgs.push(Cfg { secret: true, status: "minimal", disc_ms: 12_000, one_byte: false, ka_stall: false, burst: false, dc_stall: false });
+    cfgs.push(Cfg { secret: false, status: "minimal", disc_ms: 15_000, one_byte: false, ka_stall: false, burst: false, dc_stall: false });
     // the whole history in one burst (the packets arrive coalesced, possibly in one read)
-    cfgs.push(Cfg { secret: true, status: "minimal", disc_ms: 0, one_byte: false, ka_stall: false, burst: true });
-    cfgs.push(Cfg { secret: false, status: "full", disc_ms: 0, one_byte: false, ka_stall: false, burst: true });
+    cfgs.push(Cfg { secret: true, status: "minimal", disc_ms: 0, one_byte: false, ka_stall: false, burst: true, dc_stall: false });
+    cfgs.push(Cfg { secret: false, status: "full", disc_ms: 0, one_byte: false, ka_stall: false, burst: true, dc_stall: false });
     // a Keep Alive that the transport accepts only partially before discovery answers
-    cfgs.push(Cfg { secret: true, status: "minimal", disc_ms: 17_000, one_byte: false, ka_stall: true, burst: false });
+    cfgs.push(Cfg { secret: true, status: "minimal", disc_ms: 17_000, one_byte: false, ka_stall: true, burst: false, dc_stall: false });
     if !thorough {
-        cfgs.push(Cfg { secret: true, status: "minimal", disc_ms: 17_000, one_byte: false, ka_stall: false, burst: false });
+        cfgs.push(Cfg { secret: true, status: "minimal", disc_ms: 17_000, one_byte: false, ka_stall: false, burst: false, dc_stall: false });
     } else {
         // the same search over a transport that moves one byte at a time
-        cfgs.push(Cfg { secret: true, status: "full", disc_ms: 0, one_byte: true, ka_stall: false, burst: false });
-        cfgs.push(Cfg { secret: false, status: "minimal", disc_ms: 17_000, one_byte: true, ka_stall: false, burst: false });
+        cfgs.push(Cfg { secret: true, status: "full", disc_ms: 0, one_byte: true, ka_stall: false, burst: false, dc_stall: false });
+        cfgs.push(Cfg { secret: false, status: "minimal", disc_ms: 17_000, one_byte: true, ka_stall: false, burst: false, dc_stall: false });
     }
     // Two connections in one process, one after the other: the first ends badly with a clientbound frame stuck in
     // the transport; the fresh connection that follows must be served exactly as if it were the first ever
@@ -477,7 +484,7 @@ pub fn run_with(cli: Cli, extra: &dyn Fn(&Report)) -> ! {
     if let Some(case) = cli.replay.clone().filter(|c| c.get("earlier").is_none()) {
         let names: Vec<String> = serde_json::from_value(case["history"].clone()).unwrap_or_default();
         let hist: Vec<Kind> = names.iter().filter_map(|n| all_kinds.iter().find(|k| k.name == n).cloned()).collect();
-        let cfg = Cfg { secret: case["secret"].as_bool().unwrap_or(false), status: match case["status"].as_str() { Some("none") => "none", Some("full") => "full", _ => "minimal" }, disc_ms: case["disc_ms"].as_u64().unwrap_or(0), one_byte: case["one_byte"].as_bool().unwrap_or(false), ka_stall: case["ka_stall"].as_bool().unwrap_or(false), burst: case["burst"].as_bool().unwrap_or(false) };
+        let cfg = Cfg { secret: case["secret"].as_bool().unwrap_or(false), status: match case["status"].as_str() { Some("none") => "none", Some("full") => "full", _ => "minimal" }, disc_ms: case["disc_ms"].as_u64().unwrap_or(0), one_byte: case["one_byte"].as_bool().unwrap_or(false), ka_stall: case["ka_stall"].as_bool().unwrap_or(false), burst: case["burst"].as_bool().unwrap_or(false), dc_stall: case["dc_stall"].as_bool().unwrap_or(false) };
         let obs = crate::sim::run(&build(&hist, &cfg));
         let preds = predict(&hist, &cfg);
         println!("history: {}", hist_json(&hist));
@@ -545,7 +552,7 @@ pub fn run_with(cli: Cli, extra: &dyn Fn(&Report)) -> ! {
                     rep.violation(Violation {
                         key: k,
                         text: format!("history {} secret={} status={} disc_ms={}: {t}", hist_json(h), cfg.secret, cfg.status, cfg.disc_ms),
-                        replay: json!({"history": hist_json(h), "secret": cfg.secret, "status": cfg.status, "disc_ms": cfg.disc_ms, "one_byte": cfg.one_byte, "ka_stall": cfg.ka_stall, "burst": cfg.burst}),
+                        replay: json!({"history": hist_json(h), "secret": cfg.secret, "status": cfg.status, "disc_ms": cfg.disc_ms, "one_byte": cfg.one_byte, "ka_stall": cfg.ka_stall, "burst": cfg.burst, "dc_stall": cfg.dc_stall}),
                         weight: h.len() as u64,
                     });
                     return;
@@ -586,6 +593,46 @@ pub fn run_with(cli: Cli, extra: &dyn Fn(&Report)) -> ! {
     rep.sample(json!({"history": ["handshake-login", "ping-0"], "expect": "no reply, error"}));
     rep.assume("a frame whose id matches the expected packet but whose body leaves trailing bytes (or carries a payload outside the alphabet) may be treated either as the expected packet or as another packet");
     rep.assume("which other packets are tolerated in the configuration phase is not fixed by the statement: there only the set and order of replies and 'no routing before Client Information' are judged");
+    // "finally either Transfer or Disconnect, after which nothing more is sent" when the final Disconnect is the
+    // timeout of a silent client and the socket takes it only in part while the routing stage that was running
+    // answers (further stages follow, or routing is complete)
+    {
+        let mut n = 0u64;
+        for secret in [false, true] {
+            for (lat, until) in [([33_000u64, 20_000, 0], 34_000u64), ([33_000, 20_000, 0], 60_000), ([0, 33_000, 20_000], 34_000), ([0, 0, 33_000], 40_000), ([40_000, 0, 0], 41_000), ([20_000, 13_000, 40_000], 33_500), ([33_000, 0, 0], 0)] {
+                for first in [1usize, 3, 9] {
+                    let mut case = Case::default();
+                    case.cfg.auth_secret = secret.then(|| b"c06-secret".to_vec());
+                    case.script = Login::default().steps();
+                    case.echo = Echo::Never;
+                    case.adapters.disc_ms = lat[0];
+                    case.adapters.filter_ms = lat[1];
+                    case.adapters.strat_ms = lat[2];
+                    case.horizon_ms = 200_000;
+                    let base = crate::sim::run(&case);
+                    let Some(frame) = base.packets.iter().position(|(_, p)| p.kind() == "ConfDisconnect") else {
+                        common::machinery("C06: a silent client was not sent the timeout Disconnect in the undisturbed run");
+                    };
+                    if until > 0 {
+                        case.transport.writes.push(WriteDev { frame, prog: vec![WStep::Accept(first), WStep::Until(until)] });
+                    }
+                    let obs = crate::sim::run(&case);
+                    n += 1;
+                    let kinds = obs.kinds();
+                    let want: Vec<&str> = base.kinds();
+                    if kinds != want || obs.garbled.is_some() || obs.partial_tail > 0 {
+                        rep.violation(Violation {
+                            key: "packet-after-the-final-disconnect".into(),
+                            text: format!("a silent client, routing latencies {lat:?}, the timeout Disconnect accepted {first} byte(s) and the rest at {until} ms: the client was sent {kinds:?} ({:?}); when the socket takes the Disconnect at once it is sent {want:?}", obs.result),
+                            replay: json!({"earlier": "timeout-disconnect-stall", "lat": lat, "first": first, "until": until, "secret": secret}),
+                            weight: 8,
+                        });
+                    }
+                }
+            }
+        }
+        rep.set("histories_with_a_stalled_timeout_disconnect", json!(n));
+    }
     extra(&rep);
     rep.finish()
 }
